@@ -3,6 +3,7 @@ use bytes::BytesMut;
 use super::Chunker;
 use crate::Chunk;
 
+#[cfg_attr(oll3_bita_verif, derive(Hash))]
 pub struct FixedSizeChunker {
     chunk_size: usize,
 }
